@@ -194,9 +194,9 @@ fn sweep(run: &Run, name: &str, skels: &[Vec<Sk>], max: usize, unroll: usize, at
 
 pub fn run(run: &Run) {
     let unroll = run.tier.pick(2, 3);
-    let full = run.tier.pick(4, 5);
+    let full = 4;
     let deep = run.tier.pick(5, 6);
-    let atoms = run.tier.pick(3, 4);
+    let atoms = 3;
     run.set_rule(&format!(
         "sweep `full`: every skeleton <= {full} statements (depth <= 3; braced, empty and bare \
          bodies, blocks, for) with marker atoms; sweep `deep`: braced non-empty bodies <= {deep} \
@@ -204,13 +204,23 @@ pub fn run(run: &Run) {
          {{x = k, x += k, x--, return x | assert(x), var a = x, b = a + 1}}; each as function and template, with and without a `var x = 0;` prologue, every `for` in three header forms (`var i = 0` / assignment to an existing variable / `var i = 0, j = i + 1`); for each \
          program every decision string with loops unrolled <= {unroll} times per entry, walked in \
          lock-step on the generator's syntax and on the real CFG (before and after SSA); \
-         non-trivial = program with more than one path"
+         (thorough: also the full sweep <= 5 statements with loops unrolled <= 2 times); non-trivial = program with more than one path"
     ));
     run.set_extra("unroll_bound", json!(unroll));
-    for (name, max, kinds) in [("full", full, 1), ("deep", deep, 1), ("atoms", atoms, MARKER_ATOM_KINDS)] {
+    let mut sweeps = vec![("full", full, 1, 2), ("deep", deep, 1, 2), ("atoms", atoms, MARKER_ATOM_KINDS, 2)];
+    if run.tier == crate::infra::Tier::Thorough {
+        // Deeper unrolling where the path count stays enumerable, and one more statement in the
+        // full sweep at the quick tier's unrolling bound.
+        sweeps.push(("deep", 5, 1, unroll));
+        sweeps.push(("atoms", atoms, MARKER_ATOM_KINDS, unroll));
+        sweeps.push(("full", 5, 1, 2));
+    }
+    for (name, max, kinds, unroll) in sweeps {
         let skels = enumerate(opts(name, max));
-        run.set_extra(&format!("skeletons_{name}"), json!(skels.len()));
+        run.set_extra(&format!("skeletons_{name}_{max}"), json!(skels.len()));
+        let t0 = std::time::Instant::now();
         sweep(run, name, &skels, max, unroll, kinds);
+        eprintln!("[C13] sweep {name} <= {max} statements, unroll {unroll}: {} skeletons, {:.1}s", skels.len(), t0.elapsed().as_secs_f64());
     }
     // Route B: the graph the real runner builds from a file (with and without main component),
     // every skeleton of <= 3 statements.
